@@ -303,6 +303,7 @@ flatmap_get_chunk_flat(struct flattened_map *map, struct fcache_chunk *fch,
 {
 	struct flattened_file_map *fmap = &map->fmap[fidx];
 	const addrxlat_range_t *range, *end;
+	kdump_status status;
 	off_t off;
 
 	range = addrxlat_map_ranges(fmap->map);
@@ -319,5 +320,8 @@ flatmap_get_chunk_flat(struct flattened_map *map, struct fcache_chunk *fch,
 	if (!fch->data)
 		return KDUMP_ERR_SYSTEM;
 	fch->nent = 0;
-	return flatmap_pread(map, fch->data, len, fidx, pos);
+	status = flatmap_pread(map, fch->data, len, fidx, pos);
+	if (status != KDUMP_OK)
+		free(fch->data);
+	return status;
 }
